@@ -2,6 +2,7 @@ package main
 
 import (
 	"fmt"
+	"go/token"
 
 	"golang.org/x/tools/go/ssa"
 )
@@ -395,6 +396,7 @@ func c02(r *Report) {
 
 	r.Guard("C02.R5", "skip-round-trip causes zero upstream contact and a 200 bound to the request", func() {
 		contextFlagRules(r, "SkipRoundTrip", "SkippingRoundTrip")
+		skipDecisionRule(r)
 		rts := calls(rtHost, "(net/http.RoundTripper).RoundTrip")
 		skips := plainCalls(rtHost, "(*M.Context).SkippingRoundTrip")
 		if len(rts) != 1 || len(skips) != 1 {
@@ -714,4 +716,96 @@ func returnValuesFromEdge(from, to *ssa.BasicBlock, idx int) ([]ssa.Value, int, 
 		}
 	}
 	return out, len(paths), true
+}
+
+// skipDecisionRule: the upstream round trip is reached only on the false edge
+// of a value that is, on every path, the result of SkippingRoundTrip() - also
+// when the exchange function reads the mark and hands it to a helper. A skip
+// decision that can take another value (a default used when the request
+// modifier returned an error) sends a request upstream whose modifier asked
+// for it to be answered locally. Shared by C02.R5 and C14.R5 (the Via-loop
+// request sets the mark and returns an error).
+func skipDecisionRule(r *Report) {
+	w := r.W
+	var site ssa.CallInstruction
+	var host *ssa.Function
+	for _, f := range w.Funcs("") {
+		for _, c := range calls(f, "(net/http.RoundTripper).RoundTrip") {
+			if recv, isLd := c.Common().Value.(*ssa.UnOp); isLd {
+				if fa, isFa := recv.X.(*ssa.FieldAddr); isFa && fieldObj(fa).Name() == "roundTripper" {
+					site, host = c, f
+				}
+			}
+		}
+	}
+	if site == nil {
+		r.Undecided("upstream round trip: p.roundTripper.RoundTrip", "UNRESOLVED")
+		return
+	}
+	r.Touch(host)
+	var sources func(v ssa.Value, in *ssa.Function, depth int) (ok bool, why string)
+	sources = func(v ssa.Value, in *ssa.Function, depth int) (bool, string) {
+		if depth > 4 {
+			return false, "too deep"
+		}
+		for _, l := range resolveAll(v) {
+			for {
+				u, isU := l.(*ssa.UnOp)
+				if !isU || u.Op != token.NOT {
+					break
+				}
+				l = u.X
+			}
+			switch x := l.(type) {
+			case *ssa.Call:
+				if calleeName(x) != "(*M.Context).SkippingRoundTrip" {
+					return false, "a value of " + calleeName(x)
+				}
+			case *ssa.Parameter:
+				callers := w.staticCallers(in)
+				if len(callers) == 0 {
+					return false, "parameter " + x.Name() + " of a function without static callers"
+				}
+				idx := -1
+				for k, p := range in.Params {
+					if p == x {
+						idx = k
+					}
+				}
+				for _, c := range callers {
+					if ok, why := sources(c.Common().Args[idx], c.Parent(), depth+1); !ok {
+						return false, why + " (argument at " + fnName(c.Parent()) + ")"
+					}
+				}
+			case *ssa.Const:
+				return false, "the constant " + x.String()
+			default:
+				return false, "a value that is not the context's mark (" + l.String() + ")"
+			}
+		}
+		return true, ""
+	}
+	guarded, why := false, "no branch on the skip mark dominates the round trip"
+	for _, ce := range ctrlEdges(site.Block()) {
+		cond, taken := ce.If.Cond, ce.Taken
+		for {
+			u, isU := cond.(*ssa.UnOp)
+			if !isU || u.Op != token.NOT {
+				break
+			}
+			cond, taken = u.X, !taken
+		}
+		if _, isB := cond.(*ssa.BinOp); isB {
+			continue
+		}
+		if taken {
+			continue
+		}
+		if ok, y := sources(cond, host, 0); ok {
+			guarded = true
+		} else if !guarded {
+			why = "the branch that guards the round trip is decided by " + y
+		}
+	}
+	r.Decide("flow", "the upstream round trip is guarded by the context's skip mark and nothing else", guarded, "RoundTrip lies on the false edge of a value that is SkippingRoundTrip() on every path", why+": a request whose modifier asked to skip the round trip (the Via-loop request, which also returns an error) can still be sent upstream", site.Pos())
 }
